@@ -15,7 +15,7 @@
 #include "env/memops_witness.h"           /* memcpy/memmove of symbolic length -> witness abstraction (assumed libc) */
 #endif
 #include "env/ghost_tlvelem.h"
-#if defined(H_elserialize)
+#if defined(H_elserialize) || defined(H_elleaf)
 #include "contracts/tlv_element_serialize.h"
 #endif
 #if defined(H_elparse) || defined(H_convertToNested)
@@ -29,6 +29,10 @@ void harness(void) {
 	size_t plen = nondet_size();
 	memset(&el, 0, sizeof(el));
 	el_setup();
+	g_el_k = nondet_size(); g_el_byte = nondet_uchar();
+#ifdef EL_MEM_WITNESS
+	g_mem_k = nondet_size(); g_mem_k2 = nondet_size();
+#endif
 	el.ftlv.tag = nondet_uint(); el.ftlv.is_nc = nondet_int(); el.ftlv.is_fwd = nondet_int();
 	el.ftlv.dat_len = nondet_size(); el.ftlv.hdr_len = nondet_size();
 #ifdef EL_NESTED
@@ -69,6 +73,63 @@ void harness(void) {
 #else
 	if (res == KSI_OK && el.ftlv.dat_len == 7 && buf != NULL && buf_size > 12) REACH("payload moved to the front");
 #endif
+#endif
+}
+#endif
+
+#ifdef H_elleaf
+/* Leaf elements, plain mode (no dfcc: the instrumented formula of the contract-mode job does not solve in time).
+ * The leaf branch of the REAL KSI_TlvElement_serialize is loop-free (subList == NULL, so the children loop is not
+ * entered); the clauses of contracts/tlv_element_serialize.h are asserted at the call site for every tag, flags,
+ * payload length <= EL_MAX_LEAF, option word and buffer size. */
+void harness(void) {
+	struct KSI_TlvElement_st el; unsigned char *buf; size_t buf_size = nondet_size(); size_t len_out, len_old; int opt = nondet_int(); int res;
+	size_t plen = nondet_size(); _Bool query = nondet_bool(); size_t *len = nondet_bool() ? &len_out : NULL;
+	const KSI_TlvElement *element = &el;
+	memset(&el, 0, sizeof(el));
+	g_el_len = 0; g_el_calls = 0; g_el_sum = 0;
+#ifdef EL_GROUP_PAYLOAD
+	g_el_k = nondet_size(); g_mem_k = nondet_size(); g_mem_k2 = nondet_size();    /* witnesses: arbitrary (plain mode zero-initialises globals) */
+#else
+	g_el_k = 0; g_mem_k = 0; g_mem_k2 = 0;   /* sizes and header octets do not depend on the payload witnesses: any fixed choice is a sound abstraction of memcpy/memmove */
+#endif
+	el.ftlv.tag = nondet_uint(); el.ftlv.is_nc = nondet_int(); el.ftlv.is_fwd = nondet_int();
+	el.ftlv.dat_len = nondet_size(); el.ftlv.hdr_len = nondet_size();
+	__CPROVER_assume(el.ftlv.tag <= SPEC_TLV_MAX_TAG);                 /* precondition: tags 0..0x1fff */
+	__CPROVER_assume(el.ftlv.dat_len <= EL_MAX_LEAF && plen <= EL_MAX_LEAF + 4);
+	el.ptr = malloc(plen); __CPROVER_assume(el.ptr != NULL);
+	__CPROVER_assume(el.ftlv.dat_len == 0 || (el.ftlv.hdr_len <= 4 && el.ftlv.hdr_len + el.ftlv.dat_len == plen));
+	if (query) { buf = NULL; buf_size = 0; } else { buf = malloc(buf_size); __CPROVER_assume(buf != NULL); }
+	len_out = len_old = nondet_size();
+#ifdef EL_OPT
+	opt = EL_OPT | (opt & ~3);       /* case split on the two option bits the code looks at */
+#endif
+	res = KSI_TlvElement_serialize(&el, buf, buf_size, len, opt);
+#ifndef EL_GROUP_PAYLOAD
+	__CPROVER_assert(res == KSI_OK || res == KSI_BUFFER_OVERFLOW, "C1 result code");
+	__CPROVER_assert(IMPLIES(res == KSI_OK && len != NULL, len_out == EL_TOT(element, opt)), "C2 reported size = payload + header, header 2 octets exactly when tag <= 0x1f and payload <= 0xff; same in size-query mode");
+	__CPROVER_assert(IMPLIES(res != KSI_OK && len != NULL, len_out == len_old), "C2 size untouched on failure");
+	__CPROVER_assert(IMPLIES(res == KSI_OK && buf != NULL, EL_TOT(element, opt) <= buf_size), "C3 nothing that does not fit is reported as written");
+	__CPROVER_assert(IMPLIES(buf == NULL || (EL_TOT(element, opt) <= buf_size && buf_size > EL_DAT(element)), res == KSI_OK), "C5 succeeds whenever it fits (+1 spare octet)");
+	__CPROVER_assert(IMPLIES(res == KSI_OK && EL_HDR(opt), EL_DAT(element) <= SPEC_TLV_MAX_LEN), "C6 payload longer than 0xffff is refused");
+	if (res == KSI_OK && buf != NULL && EL_HDR(opt)) {
+		size_t p = EL_POS(element, opt, buf_size);
+		__CPROVER_assert(buf[p] == spec_tlv_enc_hdr_byte(el.ftlv.tag, el.ftlv.is_nc, el.ftlv.is_fwd, EL_DAT(element), 0), "C7 header octet 0 = reference encoding");
+		__CPROVER_assert(buf[p + 1] == spec_tlv_enc_hdr_byte(el.ftlv.tag, el.ftlv.is_nc, el.ftlv.is_fwd, EL_DAT(element), 1), "C7 header octet 1 = reference encoding");
+		if (spec_tlv_enc_hdr_len(el.ftlv.tag, EL_DAT(element)) == 4) {
+			__CPROVER_assert(buf[p + 2] == spec_tlv_enc_hdr_byte(el.ftlv.tag, el.ftlv.is_nc, el.ftlv.is_fwd, EL_DAT(element), 2), "C7 header octet 2 = reference encoding");
+			__CPROVER_assert(buf[p + 3] == spec_tlv_enc_hdr_byte(el.ftlv.tag, el.ftlv.is_nc, el.ftlv.is_fwd, EL_DAT(element), 3), "C7 header octet 3 = reference encoding");
+		}
+	}
+#else
+	if (res == KSI_OK && buf != NULL && g_el_k < EL_DAT(element) && EL_MEM_WITNESS_AT(g_el_k, (EL_TOT(element, opt) - EL_DAT(element)) + g_el_k, opt))
+		__CPROVER_assert(buf[EL_POS(element, opt, buf_size) + (EL_TOT(element, opt) - EL_DAT(element)) + g_el_k] == el.ptr[el.ftlv.hdr_len + g_el_k], "C8 payload octets arrive unchanged after the header");
+#endif
+	if (res == KSI_OK) REACH("serialized"); else REACH("refused");
+	if (res == KSI_OK && buf != NULL && el.ftlv.dat_len == 0x100) REACH("payload 0x100 written");
+	if (res == KSI_OK && buf != NULL && el.ftlv.dat_len == 0xff && el.ftlv.tag == 0x1f) REACH("largest short form written");
+#ifdef EL_GROUP_PAYLOAD
+	if (res == KSI_OK && buf != NULL && el.ftlv.dat_len > 9 && g_el_k == 5 && g_mem_k == 5 && (g_mem_k2 == 9 || g_mem_k2 == 7)) REACH("payload witness behind the header");
 #endif
 }
 #endif
